@@ -185,14 +185,14 @@ def solve_ops(rhs_names):
 
 def make_inner(kind):
     import pymoto.solvers as ps
-    base = {'ref': None, 'lu': ps.SolverDenseLU, 'qr': ps.SolverDenseQR, 'splu': ps.SolverSparseLU}[kind]
+    base = {'ref': None, 'lu': ps.SolverDenseLU, 'qr': ps.SolverDenseQR, 'splu': ps.SolverSparseLU}[kind.split(':')[0]]
     if base is None:
         class Ref(ps.LinearSolver):
             def __init__(self):
                 self.calls = 0
 
             def update(self, A):
-                self.A = np.array(A)
+                self.A = A.toarray() if hasattr(A, 'toarray') else np.array(A)
 
             def solve(self, rhs, x0=None, trans='N'):
                 self.calls += 1
@@ -211,9 +211,11 @@ def make_inner(kind):
 
 
 def storage(A, inner):
+    import scipy.sparse as sps
     if inner == 'splu':
-        import scipy.sparse as sps
         return sps.csc_matrix(A)
+    if ':' in inner:      # the reference inner solver behind a wrapper that is handed a sparse container
+        return {'csr': sps.csr_matrix, 'csc': sps.csc_matrix, 'coo': sps.coo_matrix}[inner.split(':')[1]](A)
     return A.copy()
 
 
@@ -502,6 +504,14 @@ def generate(tier, seed):
     sub = [nm for nm in names if nm.count('1') in (0, 2, 3, 6) and nm[:2] in ('r0', 'r1', 'c1', 'rs', 'ch', 'cs')][:24]
     yield {'__level__': 'depth2/lu-subset'}
     yield from level_depth2('lu', 'none', sub)
+    # the wrapper handed sparse containers (its structure analysis runs on scipy.sparse objects then)
+    yield {'__level__': 'depth2/sparse-containers'}
+    for fmt_ in ('csr', 'csc', 'coo'):
+        for nm in (names if (fmt_ == 'csr' or tier != 'quick') else
+                   [m_ for m_ in names if m_ in sub or m_.startswith('rz') or m_.startswith('cz')]):
+            for op1 in solve_ops(RHS_SMALL):
+                yield {'mat': nm, 'table': t, 'inner': 'ref:' + fmt_, 'flags': 'none', 'prefix': [op1],
+                       'tails': [[], ['S']] if tier == 'quick' else [[], ['S'], ['U', 's']], 'rhs_alphabet': RHS_SMALL}
     yield {'__level__': 'depth2/initial-guess'}
     guess_mats = names if tier != 'quick' else [nm for nm in names if nm.count('1') in (0, 1, 3, 6) or nm[:2] in ('rs', 'ch', 'cs')]
     for inner in ('ref', 'lu'):
